@@ -117,7 +117,23 @@ package storage
 //@ axiom forall h mathint :: {WithdrawalKeyId(h)} keykind(WithdrawalKeyId(h)) == 16 && keyhid(WithdrawalKeyId(h)) == h
 //@ -- byte order of the fixed-width big-endian keys of ONE prefix == numeric order (binary.BigEndian: the most significant byte comes first)
 //@ axiom forall x, y mathint :: {badger.keylt(TopoKeyId(x), TopoKeyId(y))} 0 <= x && x < 18446744073709551616 && 0 <= y && y < 18446744073709551616 ==> (badger.keylt(TopoKeyId(x), TopoKeyId(y)) <==> x < y)
-//@ -- kind 15 (CUSTODIANUPDATE) has no constructor here yet (kind 14 NODESTATEQUEUE: see the C27 section below): they only occur in the assumed frames of the writers called by writeUTXO.
+//@ -- ═════════ kind 15 (C11): CUSTODIANUPDATE | be64(timestamp) ═════════
+//@ -- ASSUMED like the rest of the key space (argued from the constructor graphCustodianUpdateKey): fixed width, no other prefix of
+//@ -- badger_graph.go is an initial segment of "CUSTODIANUPDATE" or extends it, byte order of the big-endian suffix == numeric order.
+//@ uninterp CustKeyId(t mathint) mathint
+//@ axiom forall t mathint :: {CustKeyId(t)} 0 <= t && t < 18446744073709551616 ==> keykind(CustKeyId(t)) == 15 && keynum(CustKeyId(t)) == t &&
+//@     badger.keypfx(CustKeyId(t), strkey(graphPrefixCustodianUpdate)) == 0
+//@ axiom forall x, y mathint :: {badger.keylt(CustKeyId(x), CustKeyId(y))} 0 <= x && x < 18446744073709551616 && 0 <= y && y < 18446744073709551616 ==>
+//@     (badger.keylt(CustKeyId(x), CustKeyId(y)) <==> x < y)
+//@ assume func graphCustodianUpdateKey
+//@   modifies nothing
+//@   ensures fresh(result) && len(result) > 0 && kvkey(result) == CustKeyId(ts)
+//@ -- graphCustodianAccountTimestamp slices key[15:] and reads 8 bytes: it panics on anything shorter than a custodian key
+//@ assume func graphCustodianAccountTimestamp
+//@   requires [cust-key] IsCustKey(kvkey(key))
+//@   modifies nothing
+//@   ensures result == keynum(kvkey(key))
+
 //@ spec UQK(n crypto.Hash, h crypto.Hash) mathint = UniqKeyId(kvval(n), kvval(h))
 //@ spec SK(n crypto.Hash, r mathint, h crypto.Hash) mathint = SnapKeyId(kvval(n), r, kvval(h))
 //@ spec AIK(a crypto.Hash) mathint = AssetInfoKeyId(kvval(a))
